@@ -245,7 +245,9 @@ func propPriv(args []string) string {
 
 // ---- generator ----
 
-var privDBs = []string{"db", "db", "d2", `"my db"`, `"a.b"`, "telegraf", `"é"`}
+// database names: also names that differ only in letter case, in a trailing blank, in quoting, or by
+// a prefix (each is a database of its own)
+var privDBs = []string{"db", "db", "d2", `"my db"`, `"a.b"`, "telegraf", `"é"`, "Db", "DB", `"db"`, `"db "`, "telegraf2", "Telegraf", `"É"`, "d", "db2"}
 var privNames = []string{"m", "cpu", "m2", `"a b"`, `"select"`, "x_1"}
 
 func privMeasurement(r *rand.Rand, allowDB bool) string {
@@ -481,6 +483,10 @@ func genPriv(r *rand.Rand, n int, emit func(args ...string)) {
 		"SELECT v FROM (SELECT v FROM db.rp.m)",
 		"SELECT v FROM (SELECT v FROM (SELECT v FROM (SELECT v FROM (SELECT v FROM d5.rp.m))))",
 		"SELECT v FROM (SELECT v FROM d1..a), (SELECT v FROM (SELECT v FROM d2..b), d3..c), d4..d",
+		"SELECT v FROM metrics.autogen.cpu, \"Metrics\".autogen.cpu, METRICS..cpu",
+		"SELECT v FROM metrics..cpu, (SELECT v FROM (SELECT v FROM \"METRICS\"..cpu), \"Metrics\"..mem)",
+		"SELECT v INTO Db..t FROM db..m, DB..m",
+		"EXPLAIN ANALYZE SELECT v INTO \"db \"..t FROM db..m, \"db\"..m2",
 		"SELECT v INTO t FROM m",
 		"SELECT v INTO rp.t FROM m",
 		"SELECT v INTO tdb.rp.t FROM sdb.rp.m",
